@@ -11,6 +11,9 @@ defined more than once.  Names are processed in order of first definition.
 * `r` `macro_redefinition`  — a name involved is defined more than once
 * `f` `macro_float_suffix`  — a floating literal carries an `f` / `l` suffix
 * `w` `macro_wide_string`   — a string literal carries an `L` / `u` / `U` prefix
+* `p` `macro_open_reference` — a referenced name has a body whose top-level operator is binary
+  or `?:` without enclosing parentheses (`#define A 1+2`, `(A*3)` is `1+2*3` for C, 9 for cexpr)
+  (`o` is the internal "this name is open" flag)
 -/
 namespace BindgenModel.CExpr
 
@@ -20,12 +23,14 @@ structure Flags where
   r : Bool := false
   f : Bool := false
   w : Bool := false
+  p : Bool := false
+  o : Bool := false
   deriving DecidableEq, Repr
 
 def Flags.or (a b : Flags) : Flags :=
-  ⟨a.u || b.u, a.c || b.c, a.r || b.r, a.f || b.f, a.w || b.w⟩
+  ⟨a.u || b.u, a.c || b.c, a.r || b.r, a.f || b.f, a.w || b.w, a.p || b.p, a.o || b.o⟩
 
-def Flags.any (a : Flags) : Bool := a.u || a.c || a.r || a.f || a.w
+def Flags.any (a : Flags) : Bool := a.u || a.c || a.r || a.f || a.w || a.p
 
 def charHighLocal (e : Expr) : Bool :=
   match stripParens e with
@@ -42,9 +47,20 @@ def flagsLookup (nf : List (String × Flags)) (n : String) : Flags :=
 
 def countDefs (defs : List (String × Expr)) (n : String) : Nat := (defs.filter (·.1 = n)).length
 
-/-- local flags of a body plus the flags of the names it references -/
+/-- top-level operator binary / `?:`, or an alias of such a name -/
+def openBody (nf : List (String × Flags)) : Expr → Bool
+  | .bin .. => true
+  | .cond .. => true
+  | .ident n => (flagsLookup nf n).o
+  | _ => false
+
+/-- local flags of a body plus the flags of the names it references (`o` is not inherited
+through references, it becomes `p` of the referencing body) -/
 def bodyFlags (tenv : List (String × CTy)) (nf : List (String × Flags)) (e : Expr) : Flags :=
-  (refs e).foldl (fun acc r => acc.or (flagsLookup nf r)) (localFlags tenv e)
+  let inherited := (refs e).foldl (fun acc r =>
+    let f := flagsLookup nf r
+    acc.or { f with o := false, p := f.p || f.o }) (localFlags tenv e)
+  { inherited with o := openBody nf e }
 
 def firstNames (defs : List (String × Expr)) : List String :=
   defs.foldl (fun acc d => if acc.contains d.1 then acc else acc ++ [d.1]) []
